@@ -5,6 +5,13 @@ import json, os, sys
 VERIF = os.path.dirname(os.path.dirname(os.path.abspath(__file__)))
 
 ENGINES = [
+    {"name": "crash", "path": "vf/engines/crash.cc", "serves_properties": ["C02", "C03", "C05", "C17"],
+     "kind_free_text": "fault enumeration over recorded I/O traces: generated write histories recorded at system-call granularity, replayed through a "
+                       "file-system model that implements exactly C02's crash model; every state-changing call boundary x {minimal, maximal, directory-ahead, "
+                       "data-ahead, torn, sampled} images materialised and reopened by the real code"},
+    {"name": "codec", "path": "vf/engines/codec.cc", "serves_properties": ["C15", "C16", "C17"],
+     "kind_free_text": "round-trip / differential property testing of log framing, CRC-32C, table files, Snappy, separators, version edits and varints against "
+                       "independent reference codecs (vf/ref/ref.h), with exhaustive sub-spaces (separators over short strings, varint32)"},
     {"name": "hist", "path": "vf/engines/hist.cc", "serves_properties": ["C01", "C06", "C07", "C13", "C14"],
      "kind_free_text": "model-based stateful property testing: rapidcheck-generated operation histories interpreted against lcdb and a "
                        "sorted-map model on a deterministic baton scheduler, with directory operations recorded and every reported table "
@@ -40,6 +47,39 @@ CHECKS = {
                 text="Same engine: after every structural change leveldb.sstables is parsed; every listed file must exist with the stated size, decode "
                      "with the reference reader into a strictly increasing internal-key run whose ends equal the stated bounds; levels >=1 sorted and "
                      "disjoint; per user key, shallower levels / newer level-0 files hold strictly newer sequences; flush+close+reopen reproduces the layout."),
+    "C02": dict(engine="crash", cat="fault_enumeration", ref="3/C02",
+                technique="crash-point enumeration over recorded syscall traces of generated histories; crash images per C02's model; marker-key oracle",
+                text="Every state-changing system-call boundary of each generated, recorded history (foreground writer and background compaction interleaved by the "
+                     "deterministic scheduler) is a crash point; per point the minimal, maximal, directory-ahead, data-ahead, torn-last-write and sampled images "
+                     "allowed by the stated crash model are materialised and opened by the real code. Required: every batch acknowledged with sync, and every "
+                     "acknowledged batch whose log has been unlinked, is present. Exhaustive over the boundaries of each explored trace when affordable, sampled "
+                     "(all directory/sync points first) otherwise; images canonical + sampled, not all."),
+    "C03": dict(engine="crash", cat="fault_enumeration", ref="3/C03",
+                technique="kill-point enumeration over recorded syscall traces; byte-exact process-kill image; marker-key oracle",
+                text="Same recorded histories; the image at each kill point is the byte-exact replay of the trace prefix. Required: all acknowledged batches present, "
+                     "at most one unacknowledged (in-flight) batch, contents equal the fold of the surviving batches in log order, nothing else."),
+    "C05": dict(engine="crash", cat="fault_enumeration", ref="3/C05",
+                technique="crash-image enumeration + recovery, follow-up workload and second open on every image",
+                text="Every image of the C02/C03 enumeration must open with LDB_OK; surviving batches form a prefix of every log segment; contents equal their fold; "
+                     "point lookups agree with scans; follow-up writes after recovery win, persist across close and a second open; the second open loses nothing; "
+                     "tables named by the image's MANIFEST are never rewritten by recovery."),
+    "C15": dict(engine="codec", cat="exploration", ref="3/C15",
+                technique="round-trip and differential property testing against an independent log encoder/decoder and a bitwise CRC-32C",
+                text="Generated record-length sequences (block/fragment boundary lengths, random up to 200 KiB / 1 MiB), prefix logs for the reuse path, truncation "
+                     "sweeps and byte alterations; lcdb's writer bytes must equal the reference encoder's, both readers must return the records, a cut yields exactly "
+                     "the records before it silently, alterations yield a subsequence with later intact blocks delivered and losses reported; CRC-32C equals the bitwise "
+                     "reference on both the table-driven and the hardware path. One known finding (zeroed header skipped silently) is excluded by signature."),
+    "C16": dict(engine="codec", cat="exploration", ref="3/C16",
+                technique="round-trip and differential property testing against an independent table reader, Snappy decoder and bloom hash; exhaustive separators on short strings",
+                text="Generated tables under random options are built with the real builder, read with the real reader (iteration both ways, seeks, lookups of present and "
+                     "absent keys) and decoded by the reference reader, which also checks block CRCs, restart arrays, index-key bounds and that the reference bloom accepts "
+                     "every key; Snappy round-trips and differential decoding of damaged streams; separator/successor contract exhaustive over strings of length <=3/4 on five bytes."),
+    "C17": dict(engine="codec", cat="exploration", ref="3/C17",
+                technique="round-trip/differential testing of version edits and varints against a reference codec; MANIFEST replay vs reported layout over real histories; roll-over crash images",
+                text="Three parts: (1) generated edits exported, compared byte-for-byte with the reference encoding, decoded by the reference, re-imported, and imported from "
+                     "permuted reference encodings; varint32 exhaustive near every 2^(7k) (all 2^32 in the thorough tier); (2) over generated histories the MANIFEST named by "
+                     "CURRENT, replayed by the reference decoder, must reproduce the reported file set and counters at every quiescent point; (3) on crash images around "
+                     "MANIFEST roll-over CURRENT must end in a newline and name a MANIFEST that the reference decodes, and open must succeed."),
 }
 
 NOT_APPLICABLE = []
